@@ -272,8 +272,20 @@ def _straight_line_expr(body: list) -> Optional[ast.expr]:
     return ev(list(body), {})
 
 
+def _search_tail(body: list) -> list:
+    """a body that ends with a search loop answering with constants (``for v in it: if c: return K`` ; ``return not K``) after
+    other statements: the tail is the one ``return any(...)`` / ``return all(...)``"""
+    if len(body) >= 3:
+        q = _query_expr(body[-2:])
+        if q is not None:
+            ret = ast.copy_location(ast.Return(value=q), body[-2])
+            ast.fix_missing_locations(ret)
+            return list(body[:-2]) + [ret]
+    return body
+
+
 def _expr_form(h) -> Optional[ast.expr]:
-    body = _body(h.node)
+    body = _search_tail(_body(h.node))
     if len(body) == 1 and isinstance(body[0], ast.Return) and body[0].value is not None:
         return body[0].value
     q = _query_expr(body)
@@ -349,7 +361,7 @@ def _single_exit(body: list) -> Optional[list]:
 
 def _stmt_form(h) -> Optional[tuple]:
     """(statements, returned expression or None) for (S)"""
-    body = _body(h.node)
+    body = _search_tail(_body(h.node))
     # value returns from several places: one exit; likewise a procedure that returns early from inside nested conditionals
     n_val_returns = sum(1 for s_ in body for x in ast.walk(s_) if isinstance(x, ast.Return) and x.value is not None)
     n_bare_nested = sum(1 for s_ in body if isinstance(s_, ast.If) for arm in (s_.body, s_.orelse) for y in arm for x in ast.walk(y)
